@@ -210,8 +210,10 @@ CLAIMS = {
        "operator-level `not` (flip table); each of < <= > >= is dispatched to its own comparison function; match_value classifies "
        "Ok(true)/Ok(false)/NotComparable correctly and CommonOperator compares every left x right pair as (left, right); contained_in's "
        "five cases (list in list-of-lists / list / non-list, scalar in list / scalar); EqOperation and InOperation always pair a value of "
-       "the left operand set with one of the right operand set, with compare_eq. NOT covered: the values of list / map equality "
-       "(heap recursion), regex matching (engine stubbed out), `in` lists.",
+       "the left operand set with one of the right operand set, with compare_eq; compare_eq on two lists / two maps of <= 2 entries (member "
+       "comparison arbitrary): lists are equal iff same length and pairwise equal in order, maps iff same size and every left key is present "
+       "on the right with an equal value; member errors are passed on. NOT covered: regex matching (engine stubbed out), deeper nesting than "
+       "one level per obligation (each level is the same obligation), collections longer than the unroll bound.",
   design="4/C13"),
  "C15": dict(
   text="Bounded symbolic execution (MIR, callees modelled, value identities tracked; z3+cvc5) of the resolution machinery: "
